@@ -59,6 +59,7 @@ type caseT struct {
 	Format string
 	Level  string
 	Source string // install: file | dir
+	Overwrite bool
 }
 
 var workerSrc string
@@ -112,14 +113,19 @@ func main() {
 		}
 	}
 	names = append(names, "a/../../b", "good/../../b", "good/../other", "./good", "good/.", "good/", "good//", "/abs/evil", "//evil", "/", ".", "..", "", "a\x00b", "good\x00/../x", "../good", "good/..", "x/y", "good/notation-good")
+	// names that are (odd but) single path components and only become traversal names when someone trims them: the plugin
+	// directory must still be exactly <root>/<name>, so sentinels wait where the TRIMMED name would resolve to
+	wrapped := []string{".. ", " ..", "..\n", "\t..\t", " . ", ". ", " ", "\t", " good", "good ", "../evil ", " ../evil"}
 	valid := []string{"good", "bar.example.plugin", "-x", "a_b", "..."}
 	var cases []caseT
 	for _, depth := range []int{1, 3, 6} {
-		for _, n := range append(append([]string{}, names...), valid...) {
+		for _, n := range append(append(append([]string{}, names...), valid...), wrapped...) {
 			cases = append(cases, caseT{Op: "get", Name: n, Depth: depth}, caseT{Op: "uninstall", Name: n, Depth: depth})
 		}
-		for _, fn := range []string{"..", ".", "good2", "evil"} {
-			cases = append(cases, caseT{Op: "install", Name: fn, Depth: depth, Source: "file"}, caseT{Op: "install", Name: fn, Depth: depth, Source: "dir"})
+		for _, fn := range []string{"..", ".", "good2", "evil", ".. ", " ."} {
+			for _, ow := range []bool{false, true} {
+				cases = append(cases, caseT{Op: "install", Name: fn, Depth: depth, Source: "file", Overwrite: ow}, caseT{Op: "install", Name: fn, Depth: depth, Source: "dir", Overwrite: ow})
+			}
 		}
 		cases = append(cases, caseT{Op: "list", Depth: depth})
 	}
@@ -136,7 +142,7 @@ func main() {
 		if r.Quick() && depth == 6 {
 			continue
 		}
-		for _, n := range append(append([]string{}, vnames...), "good") {
+		for _, n := range append(append(append([]string{}, vnames...), "good"), ".. ", " ..", "good ") {
 			if strings.Contains(n, "\x00") || strings.TrimSpace(n) == "" {
 				continue // not representable / refused earlier as a header value
 			}
@@ -182,7 +188,7 @@ func main() {
 		}
 		os.MkdirAll(J("/etc"), 0o755)
 		os.WriteFile(J("/etc/x"), []byte("not a plugin"), 0o644)
-		sp := jailSpec{Root: root, Op: c.Op, Name: c.Name, Level: c.Level, Format: c.Format, DescJSON: string(descJSON)}
+		sp := jailSpec{Root: root, Op: c.Op, Name: c.Name, Level: c.Level, Format: c.Format, DescJSON: string(descJSON), Overwrite: c.Overwrite}
 		allowedPrefix := []string{}
 		isValid := lexicallyValid(c.Name)
 		judged := !strings.ContainsAny(c.Name, "\\") && c.Name != "..." && len(c.Name) < 200
@@ -200,6 +206,15 @@ func main() {
 					}
 				} else {
 					os.WriteFile(J(target)+".name", []byte(c.Name), 0o644)
+				}
+			}
+			if t := strings.TrimSpace(c.Name); t != c.Name && !strings.Contains(c.Name, "\x00") {
+				tt := filepath.Join(root, path.Join(t, "notation-"+t))
+				if inside(jail, tt) {
+					if _, err := os.Lstat(J(tt)); err != nil {
+						link(J(tt))
+						os.WriteFile(J(tt)+".name", []byte(c.Name), 0o644)
+					}
 				}
 			}
 			if isValid {
@@ -224,6 +239,13 @@ func main() {
 			if !strings.Contains(c.Name, "\x00") && inside(jail, victim) {
 				os.MkdirAll(J(victim), 0o755)
 				os.WriteFile(J(filepath.Join(victim, "victim.txt")), []byte("victim"), 0o644)
+			}
+			if t := strings.TrimSpace(c.Name); t != c.Name && t != "" && !strings.Contains(c.Name, "\x00") {
+				tv := filepath.Join(root, t)
+				if inside(jail, tv) && tv != root && !strings.HasPrefix(root, tv+"/") {
+					os.MkdirAll(J(tv), 0o755)
+					os.WriteFile(J(filepath.Join(tv, "victim-of-trimmed-name.txt")), []byte("victim"), 0o644)
+				}
 			}
 			if isValid {
 				allowedPrefix = append(allowedPrefix, filepath.Join(root, c.Name))
@@ -274,12 +296,13 @@ func main() {
 			return
 		}
 		after := lib.Snapshot(jail)
-		diff := lib.DiffSnap(before, after)
-		var markers, outside []string
-		for _, d := range diff {
-			fields := strings.SplitN(d, " ", 3)
-			p := "/" + fields[1]
-			if strings.HasSuffix(p, ".executed") && fields[0] == "added" {
+		entries := lib.DiffSnapEntries(before, after)
+		var diff, markers, outside []string
+		for _, e := range entries {
+			d := e.String()
+			diff = append(diff, d)
+			p := "/" + e.Path
+			if strings.HasSuffix(p, ".executed") && e.Kind == "added" {
 				markers = append(markers, p)
 			}
 			ok := false
